@@ -1689,14 +1689,14 @@ V("C27-start-cursor-in-variable","C27",PP,"""	cursor = engine.NewCursor(stopAddr
 ""","""	startCursor := engine.NewCursor(stopAddr.Container(), stopAddr.Object())
 	cursor = startCursor
 """,expect="silent")
-V("C28-put-headers-incomplete-on-fetch-error","C28",EH,"""						if err != nil {
-							return fmt.Errorf("fetching first object header: %w", err)
-						}
-""","""						if err != nil {
-							dst.objectHeaders = addressHeaders(h.cnr, h.obj)
-							dst.incompleteObjectHeaders = true
-							break
-						}
+V("C28-put-headers-incomplete-on-fetch-error","C28",EH,"""					if err != nil {
+						return fmt.Errorf("fetching first object header: %w", err)
+					}
+""","""					if err != nil {
+						dst.objectHeaders = addressHeaders(h.cnr, h.obj)
+						dst.incompleteObjectHeaders = true
+						break
+					}
 """,rule="C28.R5")
 V("C28-get-incomplete-flag-set-conditionally","C28",EH,"""			dst.objectHeaders = objHeaders
 			dst.incompleteObjectHeaders = !completed""","""			dst.objectHeaders = objHeaders
@@ -1949,3 +1949,63 @@ func (x *countingReader) Read(p []byte) (int, error) {
 	x.n += uint64(n)
 	return n, err
 }""",expect="silent")
+PC="pkg/services/policer/check.go"
+V("C26-revert-fix-trusted-copies-protection-in-chain","C26",PC,"""	if uncheckedCopies > 0 && plc.localNodeInContainer && !plc.needLocalCopy {
+		// The local node is listed by this rule behind the nodes that were
+		// enough to cover it, and some of those are maintenance ones nobody has
+		// heard from. Whatever has been started for the rule above (replication
+		// may fail), the local copy can be the only one.
+		plc.needLocalCopy = true
+		p.log.Debug("some of the copies are stored on nodes under maintenance, save local copy of the container node",
+			zap.Int("count", uncheckedCopies))
+	}
+""","",rule="C26.R7")
+V("C26-trusted-copies-protection-merged","C26",PC,"""	} else if uncheckedCopies > 0 {
+		// If we have more copies than needed, but some of them are from the maintenance nodes,
+		// save the local copy.
+		plc.needLocalCopy = true
+		p.log.Debug("some of the copies are stored on nodes under maintenance, save local copy",
+			zap.Int("count", uncheckedCopies))
+	}
+
+	if uncheckedCopies > 0 && plc.localNodeInContainer && !plc.needLocalCopy {""","""	}
+
+	if uncheckedCopies > 0 && (plc.localNodeInContainer || shortage == 0 && len(candidates) == 0) && !plc.needLocalCopy {""",expect="silent")
+V("C28-revert-fix-bare-split-header-gets-no-headers","C28",EH,"""				if splitHeader == nil || splitHeader.SplitId != nil ||
+					splitHeader.GetParentHeader() == nil && splitHeader.GetFirst() == nil {""","""				if splitHeader == nil || splitHeader.SplitId != nil {""",rule="C28.R6",more=[{"file":EH,"old":"""					var firstID oid.ID
+
+					err := firstID.FromProtoMessage(splitHeader.GetFirst())
+					if err != nil {
+						return fmt.Errorf("converting first object ID: %w", err)
+					}
+
+					var addr oid.Address
+					addr.SetObject(firstID)
+					addr.SetContainer(h.cnr)
+
+					firstObject, err := h.headerSource.Head(h.ctx, addr)
+					if err != nil {
+						return fmt.Errorf("fetching first object header: %w", err)
+					}
+
+					dst.objectHeaders = headersFromObject(firstObject.Parent(), h.cnr, h.obj)
+				}""","new":"""					if mf := splitHeader.GetFirst(); mf != nil {
+						var firstID oid.ID
+
+						err := firstID.FromProtoMessage(mf)
+						if err != nil {
+							return fmt.Errorf("converting first object ID: %w", err)
+						}
+
+						var addr oid.Address
+						addr.SetObject(firstID)
+						addr.SetContainer(h.cnr)
+
+						firstObject, err := h.headerSource.Head(h.ctx, addr)
+						if err != nil {
+							return fmt.Errorf("fetching first object header: %w", err)
+						}
+
+						dst.objectHeaders = headersFromObject(firstObject.Parent(), h.cnr, h.obj)
+					}
+				}"""}])
